@@ -467,6 +467,7 @@ fn job_scenario(size: i64, slide: i64, scripts: Vec<Vec<(i64, i64)>>, bound: usi
         max_execs: 0,
         shards: 1,
         nontrivial: true,
+        unbounded: false,
     }
 }
 
